@@ -112,6 +112,13 @@ pub fn scenario(g: &mut G, ctx: &RunCtx) -> RunReport {
         g.probe("ascii-text-payload");
     }
     let level = g.below(10) as u32;
+    // (no draw) now and then megabytes of one octet: a few kilobytes on the wire, a thousand times that for the
+    // caller - the payload is the payload, whatever the ratio
+    if pkind == 0 && level >= 6 && n % 97 == 13 && (coding == Coding::Gzip || coding == Coding::Deflate) {
+        payload = vec![[0u8, b'x', 0xff][n % 3]; (3 << 20) + n];
+        g.probe("payload-inflating-more-than-a-thousandfold");
+    }
+    let n = payload.len();
     if level == 0 && n > 0 {
         g.probe("stored-blocks");
     }
@@ -281,6 +288,11 @@ pub fn scenario(g: &mut G, ctx: &RunCtx) -> RunReport {
             ReadMode::Sizes(v, nm)
         }
     };
+    // (megabytes are not read an octet at a time: the caller's loop has a bound on its calls)
+    let read_mode = match read_mode {
+        ReadMode::Sizes(v, _) if payload.len() > (1 << 20) && v.iter().any(|x| *x < 1024) => ReadMode::Sizes(vec![8192, 65536], "8k-64k"),
+        m => m,
+    };
     let plan = BodyPlan {
         host_is_domain: false,
         method: "GET",
@@ -295,6 +307,7 @@ pub fn scenario(g: &mut G, ctx: &RunCtx) -> RunReport {
         twin: false,
         send_on_other_thread: false,
         overall_timeout_ms: None,
+        tunnel: false,
         garbage: 0,
         declared_len: wire_body.len(),
         script: Script::from_wire(&wire.bytes, &segs, End::Fin),
